@@ -9,6 +9,7 @@ pub fn suites() -> Vec<(&'static str, Suite)> {
     vec![
         ("c14_builder", c14::run_builder as Suite),
         ("from_points", c14::run_from_points as Suite),
+        ("c14_transform", c14::run_transform as Suite),
     ]
 }
 
